@@ -391,7 +391,7 @@ def _file_cases(quick):
         for rate in (8, 8000, 16000, 44100):
             seqs = [(), (0,), (lo, hi), (0, 1, -1, hi, lo, 5, -7), (hi,) * 3 + (lo,) * 2, tuple(range(1, 13))]
             if not quick:
-                seqs += [tuple((i * 37) % 101 - 50 for i in range(k)) for k in (2, 3, 9, 25, 100, 400)]
+                seqs += [tuple((i * 37) % 101 - 50 for i in range(k)) for k in (2, 3, 9, 25, 100, 150)]
             for s in seqs:
                 yield (width, rate, s)
 
